@@ -51,7 +51,13 @@ def expr_text(t, rng, parent=99, side="l", start=True, style=None):
         elif br == "<>":
             out = "<" + out + (" >" if out.endswith(">") else ">")
         else:
-            out = "^/" + out + "/" if "/" not in out else "(" + out + ")"
+            # '^x ... x' with any of the delimiters the grammar takes, as long as it does not occur inside
+            ds = [d for d in (":", "/", "|", "\\", "/", ":") if d not in out]
+            if ds:
+                d = rng.choice(ds)
+                out = "^" + d + out + d
+            else:
+                out = "(" + out + ")"
     return out
 
 
